@@ -31,6 +31,12 @@ func main() {
 		switch stream {
 		case "rotate":
 			genRotate(seed, n, os.Args[5])
+		case "cache":
+			genCache(seed, n, os.Args[5])
+		case "conc":
+			genConc(seed, n, os.Args[5])
+		case "timer":
+			genTimer(seed, n, os.Args[5])
 		default:
 			os.Exit(2)
 		}
@@ -38,6 +44,10 @@ func main() {
 		switch stream {
 		case "rotate":
 			execRotate(os.Args[3], os.Args[4])
+		case "cache", "conc":
+			execCache(os.Args[3], os.Args[4])
+		case "timer":
+			execTimer(os.Args[3], os.Args[4])
 		default:
 			os.Exit(2)
 		}
@@ -45,6 +55,10 @@ func main() {
 		switch stream {
 		case "rotate":
 			oracleRotate(os.Args[3], os.Args[4])
+		case "cache", "conc":
+			oracleCache(os.Args[3], os.Args[4])
+		case "timer":
+			oracleTimer(os.Args[3], os.Args[4])
 		default:
 			os.Exit(2)
 		}
